@@ -148,6 +148,41 @@ def _rand_job(args):
     return rec.events, rec.info
 
 
+def _tall_job(args):
+    """tall-skinny inputs (m >= 3n) of every rank, with the dependence placed in every column position (seed C05o: a
+    'QR first' path for m >= 3n is only as good as the QR of a rank-deficient matrix): generic low-rank products, a
+    column that is a right multiple of an EARLIER column, and an exactly zero column at every position"""
+    seed, count = args
+    rng = np.random.default_rng(seed)
+    Q = lib().qsvd
+    rec = S.Rec()
+    shapes = [(3, 1), (6, 2), (8, 2), (9, 3), (12, 3)]
+    for t in range(count):
+        m, n = shapes[t % len(shapes)]
+        B = rng.standard_normal((m, n, 4))
+        mode = (t // len(shapes)) % 4
+        if mode == 1 and n >= 2:                                   # column j = column i * q,  i < j
+            i = int(rng.integers(0, n - 1)); j = int(rng.integers(i + 1, n))
+            q = rng.standard_normal((1, 1, 4))
+            B[:, j:j + 1] = omul(B[:, i:i + 1], q)
+        elif mode == 2:                                            # an exactly zero column
+            B[:, int(rng.integers(0, n))] = 0.0
+        elif mode == 3 and n >= 2:                                 # generic product of rank n - 1
+            B = omul(rng.standard_normal((m, n - 1, 4)), rng.standard_normal((n - 1, n, 4)))
+        A = B * 10.0 ** rng.integers(-2, 3)
+        sv = list(osvals(A))
+        rank = int(np.sum(np.array(sv) > 1e-10 * max(sv[0], 1e-300))) if sv and sv[0] > 0 else 0
+        sv_clean = [v if k < rank else 0.0 for k, v in enumerate(sv)]
+        detail = {"kind": "tall-skinny", "shape": [m, n], "rank": rank, "mode": mode, "A": A.tolist()}
+        Aq = q_from_float(A)
+        for R in range(1, n + 1):
+            Uq, s_, Vq = Q.classical_qsvd(Aq.copy(), R)
+            c2 = "degenerate-null-space" if (R - rank) >= 2 else "simple-spectrum"
+            ey = sum(v * v for v in sv_clean[R:])
+            measure(rec, "classical_qsvd", c2, dict(detail, R=R), A, q_to_float(Uq), np.asarray(s_), q_to_float(Vq), sv_clean, ey, R, False)
+    return rec.events, rec.info
+
+
 def run(ctx, replay=None):
     lib()
     thorough = ctx.tier == "thorough"
@@ -163,6 +198,7 @@ def run(ctx, replay=None):
     recs = par.pmap(_class_job, jobs)
     nrand = 48 if thorough else 8
     recs += par.pmap(_rand_job, [(ctx.seed * 5003 + i, 12) for i in range(nrand)], chunk=1)
+    recs += par.pmap(_tall_job, [(ctx.seed * 7001 + i, 20) for i in range(8 if thorough else 2)], chunk=1)
     recs += par.pmap(_graded_job, [(ctx.seed * 13 + i, thorough) for i in range(3 if thorough else 1)], chunk=1)
     events, info = S.merge(recs)
     S.judge(ctx, events, info)
